@@ -110,6 +110,13 @@ def showOut : Out (List UInt8) → String
   | .err e => showErr e
   | .panic => "panic"
 
+/-- requests that would make both sides materialise more than 16 MiB are not executed (never generated;
+guards replays against hanging): an in-bounds read/into of more than `2^24` bytes -/
+def tooLarge (g : Gen) : Op → Bool
+  | .read o n => decide (16777216 < n) && decide (o + n ≤ g.len)
+  | .into o n => decide (16777216 < n) && decide (o + n ≤ g.len)
+  | .until_ _ _ => false
+
 def model (ls : List String) : List String :=
   match parse ls with
   | none => ["bad-op"]
@@ -119,6 +126,7 @@ def model (ls : List String) : List String :=
       match ops with
       | [] => acc.reverse
       | op :: rest =>
+        if tooLarge g op then go st rest ("skip:too-large" :: acc) else
         match step c st op with
         | (_, .panic) => ("panic" :: acc).reverse
         | (st', out) => go st' rest (showOut out :: acc)
@@ -151,6 +159,7 @@ def isErr (o : String) : Bool := o.startsWith "err:"
 
 /-- judge one outcome line against the file -/
 def judgeOp (g : Gen) (op : Op) (o : String) : Verdict :=
+  if tooLarge g op then (if o = "skip:too-large" then .good else .bad s!"unexpected {o} for a skipped request") else
   if o = "panic" then
     -- excluded point of the theorems (`F.length + chunk < 2^64`): tagged so that it can be told apart
     (if U64 ≤ g.len + realChunk then .bad "[file-within-one-chunk-of-2^64] implementation panicked"
